@@ -522,6 +522,29 @@ def check(prop, tier):
             for r in undecided:
                 lines_out.append('UNDECIDED property=%s group=%s reason=%s' % (prop, r['group'], r['undecided']))
 
+    if tier == 'thorough' and exit_code == 0 and use_cex and not safety_only:
+        # Thorough: additionally run the bounded harness of every unit of the property against the real
+        # code. The proofs rest on assumed contracts of std and of dependencies; a harness that finds a
+        # failing input although every obligation is discharged exposes a false assumption (this is
+        # how the false `similar` tiling assumption / defect D5 was found). Labelled bounded.
+        try:
+            import cexsearch
+            bounded_runs = cexsearch.run_units(sorted(units), timeout=3000)
+        except Exception as e:
+            bounded_runs = {'_error': {'status': 'error', 'detail': repr(e)}}
+        for u, b in sorted(bounded_runs.items()):
+            if b.get('status') == 'cex':
+                os.makedirs(REPLAYS, exist_ok=True)
+                path = os.path.join(REPLAYS, '%s-%s.bounded.json' % (prop, re.sub(r'[^A-Za-z0-9_.-]', '_', u)))
+                with open(path, 'w') as fh:
+                    json.dump({'property': prop, 'obligation': u + '.bounded',
+                               'kind': 'bounded harness found a failing input although every proof obligation is discharged: an assumed contract (trusted base) does not hold for the real code',
+                               'failing_input': b['detail'], 'bound': b['harness'].get('bound'),
+                               'oracle': b['harness'].get('oracle'), 'how_to_replay': b.get('cmd')}, fh, indent=1)
+                replay_paths.append((path, b['detail']))
+                lines_out.append('VIOLATION property=%s replay=%s obligation=%s.bounded (bounded harness; proofs discharged => a trusted assumption is false)' % (prop, path, u))
+                exit_code = 1
+
     # evidence
     trusted = []
     rules = []
